@@ -511,6 +511,10 @@ fn make_msg(m: i64) -> Option<Game<'static>> {
         _ => {
             if m >= 100 && m < 100 + LONG_TEXT.len() as i64 {
                 Game::SvBroadcast(gmsg::SvBroadcast { message: &LONG_TEXT[..(m - 100) as usize] })
+            } else if m >= 100_000 && m < 300_000 {
+                // a broadcast of (m - 100000) bytes: longer than the writer's 64 KiB buffer when large
+                let text: &'static [u8] = Box::leak(vec![b'a'; (m - 100_000) as usize].into_boxed_slice());
+                Game::SvBroadcast(gmsg::SvBroadcast { message: text })
             } else {
                 return None;
             }
